@@ -47,7 +47,10 @@ def register(R):
         },
         requires=[("locks-free", "not self.__transport_send_lock.held_by_me and not self.__transport_recv_lock.held_by_me")],
         modifies=mods,
-        env={"trace_branches": ["pending"]},
+        env={"trace_branches": ["pending"],
+             "await_pre": {"self.__transport_recv_lock": (
+                 "ciphertext-produced-so-far (e.g. the close notification of unwrap()) is flushed BEFORE waiting for the receive lock, which another task may hold for as long as the peer is silent",
+                 "self._write_bio.pending == 0", "C09 C14")}},
         tags="C09 C12",
     )
     sc = "self._standard_compatible"
